@@ -28,7 +28,7 @@ if os.path.exists(log):
 meta["property"] = ID
 meta["confirmed_by_lead"] = {
     "what_i_ran": "tools/confirm_seed.sh %s in the scratch worktree: built the backend with the change, ran the demo with the change "
-                  "(must exit non-zero) and on the stashed clean tree (must exit 0), ran the existing suite with the change "
+                  "(must exit non-zero) and on the clean tree, i.e. the worktree after `git checkout -- .` (must exit 0), ran the existing suite with the change "
                   "(src/c testing/cffi0 testing/cffi1 under xdist, then every test that failed under xdist -- races of the verify() tests on "
                   "the shared testing/cffi0/__pycache__ -- again serially; C01/C15/C16 were confirmed with an earlier variant that ran the "
                   "verify()/vgen/zdistutils files serially in full)" % ID,
